@@ -54,8 +54,11 @@ def r10_1(ctx, rc):
     ]
     for (n1, done1, _), (n2, _, begin2) in zip(steps, steps[1:]):
         if not any(begin2(x) for x in sg.nodes):
-            raise AnalysisError('protocol step "%s" not found in %s' % (
-                n2, F.qualname))
+            rc.violation('protocol-step-missing | %s | %s' % (
+                F.qualname, n2), 'build_file never performs the protocol '
+                'step "%s"' % n2, F.file,
+                key='%s: step %s exists' % (F.qualname, n2))
+            continue
         w = Q.first_unguarded(sg, [sg.entry], done1, begin2)
         key = '%s: %s precedes %s' % (F.qualname, n1, n2)
         if w:
@@ -160,7 +163,10 @@ def r10_2(ctx, rc):
     claim = [x.id for x in sg.nodes
              if Q.is_done(x, C + '.start_building_file')]
     if not claim:
-        raise AnalysisError('claim not found')
+        rc.violation('claim-missing | ' + F.qualname,
+                     'build_file never performs the atomic claim', F.file,
+                     key=F.qualname + ': claim exists')
+        return
     rexits = lambda x: x.kind == 'raise_exit' and x.frame.parent is None
 
     def removes_own(x):
@@ -193,6 +199,9 @@ def r10_2(ctx, rc):
     # which start at the claim); make the coverage explicit
     san = [x for x in sg.nodes if Q.is_call(x, 'JsonUtil.sanitize')]
     rc.ok({'sanitise_sites_after_claim': len(san)}, key='sanitise covered')
+    # ... and the exception that propagates is the same object
+    from .c02 import r2_2
+    r2_2(ctx, rc)
 
 
 def r10_3(ctx, rc):
